@@ -503,6 +503,11 @@ func nativeReplay(o RunOpts, L *Loaded, h *HarnessCfg, tapePath string, v *Viola
 	if strings.Contains(out, want) {
 		return true, ""
 	}
+	// a panic in a goroutine started by the code under test cannot be recovered by the replay driver: it kills
+	// the test process, which prints the Go runtime's crash report instead of REPLAY-PANIC
+	if v.Kind == "panic" && strings.Contains(out, "\npanic: ") && strings.Contains(out, "\ngoroutine ") && !strings.Contains(out, "test timed out") {
+		return true, ""
+	}
 	tail := out
 	if len(tail) > 600 {
 		tail = tail[len(tail)-600:]
